@@ -81,6 +81,10 @@ def v1_world(ctx, shape, token_name):
     b = Broker(record_action_callback=actions.append)
     b.add_market(m)
     row = v1_row(shape, token_name)
+    if ctx.p.get("neighbour_market") and ctx.p.get("market") != "gmx1":  # (the shared C01/C03/C04 worlds bring their own)
+        from ..models import neighbours
+
+        neighbours.gmx1()
     if ctx.p.get("prior_bar"):
         # an earlier bar with other weights, supply and pool composition, on which every fee figure is looked up: whatever the
         # market remembers from it must not leak into the bar under test
@@ -249,6 +253,10 @@ def v2_world(ctx, shape, impact_pool):
     from demeter.gmx import GmxV2Market
     from demeter.gmx._typing2 import GmxV2Pool, GmxV2MarketStatus
 
+    if ctx.p.get("neighbour_market") and ctx.p.get("market") != "gmx2":
+        from ..models import neighbours
+
+        neighbours.gmx2()
     weth, usdc = TokenInfo("weth", 18), TokenInfo("usdc", 6)
     row = dict(V2_ROWS[shape])
     row["impactPoolAmount"] = impact_pool
@@ -399,8 +407,11 @@ def scenarios(tier):
         for sh in ("near_below", "above", "csv"):
             for inc in (True, False):
                 out.append(Scenario(f"v1/fee_after_another_bar/{tok}/{sh}/{'buy' if inc else 'sell'}", v1_fee, params=dict(shape=sh, token=tok, increase=inc, prior_bar=True), shadows=V1_SHADOWS, entry=("GmxMarket.set_market_status", "GmxMarket.get_fee_basis_points", "get_target_amount"), nlsat=False))
+        for inc in (True, False):
+            out.append(Scenario(f"v1/fee_with_another_glp_market_in_the_process/{tok}/near_below/{'buy' if inc else 'sell'}", v1_fee, params=dict(shape="near_below", token=tok, increase=inc, neighbour_market=True), shadows=V1_SHADOWS, entry=("GmxMarket.get_fee_basis_points", "get_target_amount"), nlsat=False))
         out.append(Scenario(f"v1/oversell/{tok}", v1_trade, params=dict(shape="csv", token=tok, oversell=True), shadows=V1_SHADOWS, entry=("GmxMarket.sell_glp",), nlsat=False, relax_int=True, round_mode="uf", max_paths=300))
     out.append(Scenario("v1/reward", v1_reward, shadows=V1_SHADOWS, entry=("GmxMarket.update", "_update_fee"), canary="CANARY no reward"))
+    out.append(Scenario("v2/deposit/long_heavy/short/another_gm_market_in_the_process", v2_deposit, params=dict(shape="long_heavy", side="short", then="withdraw", neighbour_market=True), shadows=V2_SHADOWS, entry=("GmxV2Market.deposit", "GmxV2Market.withdraw"), nlsat=True, query_timeout_ms=30000, max_paths=400, time_budget_s=300))
     for sh in V2_ROWS:
         for side in ("long", "short", "both"):
             if side == "both" and tier == "quick" and sh not in ("balanced", "long_heavy"):
